@@ -6,6 +6,7 @@ use gvlib::c17;
 use gvlib::c20;
 use gvlib::container;
 use gvlib::contmap;
+use gvlib::deser;
 use gvlib::drops;
 use gvlib::hist;
 use gvlib::searchrun;
@@ -30,6 +31,7 @@ fn run_property(prop: &str, ctx: &mut Ctx) {
         "C10" => searchrun::run("C10", ctx),
         "C11" => container::run_c11(ctx),
         "C12" => container::run_c12(ctx),
+        "C13" => deser::run(ctx),
         "C15" => c15::run(ctx),
         "C17" => c17::run(ctx),
         "C18" => contmap::run(ctx),
@@ -51,6 +53,7 @@ fn replay_case(prop: &str, v: &Value, st: &mut Stats) -> Result<(), String> {
         "C04" | "C05" | "C06" | "C07" | "C08" | "C09" | "C10" => searchrun::replay(prop, case, st),
         "C11" => container::replay_c11(case, st),
         "C12" => container::replay_c12(case, st),
+        "C13" => deser::replay(case, st),
         "C15" => c15::replay(case, st),
         "C17" => c17::replay(case, st),
         "C18" => contmap::replay(case, st),
@@ -62,16 +65,29 @@ fn replay_case(prop: &str, v: &Value, st: &mut Stats) -> Result<(), String> {
 
 fn main() {
     let args: Vec<String> = std::env::args().collect();
-    if args.len() < 3 {
+    if args.len() < 2 {
         usage();
     }
     let prop = args[1].clone();
+    if prop == "C13-corpus" {
+        match deser::write_corpus() {
+            Ok(n) => println!("wrote {} seed files", n),
+            Err(e) => {
+                eprintln!("{}", e);
+                std::process::exit(2)
+            }
+        }
+        return;
+    }
     if prop == "C17-free" {
         // child process of the C17 free-running tier: gv C17-free <flavour> <shape idx> <iterations>
         silence_panics();
         let idx: usize = args.get(3).and_then(|s| s.parse().ok()).unwrap_or(0);
         let iters: u64 = args.get(4).and_then(|s| s.parse().ok()).unwrap_or(1000);
         std::process::exit(c17::free_child(&args[2], idx, iters, args.get(5).map(|s| s.as_str())));
+    }
+    if args.len() < 3 {
+        usage();
     }
     let tier = match args[2].as_str() {
         "quick" => Tier::Quick,
